@@ -231,6 +231,14 @@ def r16_4(ctx):
     r = jn.cfg.reach([b for (a, b, l) in nz], block_nodes={n.id for (n, c) in ws}, include_src=True, skip_labels=('x',))
     ok = ok and bool(nz) and jn.cfg.exit.id not in r
     ctx.ob('R16.4', 'join:waits-iff-unfinished', ok, jn, None, 'with self._cond: if not zero: self._cond.wait()')
+    # test and wait are one critical section: a task_done() between an unlocked test and the wait is a lost wake-up
+    zt = [x for x in walk_own(jn.node) if isinstance(x, ast.Call) and
+          jn.callee(x) == 'self._unfinished_tasks._semlock._is_zero']
+    ok = bool(zt) and all(_in_with(jn, x, ('self._cond',)) for x in zt)
+    ctx.ob('R16.4', 'join:zero-test-inside-the-condition', ok, jn, zt[0] if zt else None,
+           'the "nothing outstanding?" test is made while holding self._cond' if ok else
+           'the test is made before the condition is taken: the last task_done() can run in between and its '
+           'notify_all() finds no waiter -- join() then waits for ever')
     init = m.func('queues:JoinableQueue.__init__')
     vals = {ast.unparse(t): ast.unparse(v) for (dn, t, v) in q.assigns(init, None) if v is not None}
     ok = vals.get('self._unfinished_tasks') == 'ctx.Semaphore(0)' and vals.get('self._cond') == 'ctx.Condition()'
@@ -288,6 +296,11 @@ def r16_6(ctx):
 
 
 def run(ctx):
+    # an item is one length-prefixed message on the pipe: what is written is written whole, what is read is read
+    # exactly (a reader that takes more than is missing swallows the items behind a large one)
+    from .c13 import r13_2, r13_3
+    r13_2(ctx)
+    r13_3(ctx)
     r16_6(ctx)
     from .generic import ctor_forwards_params, per_instance_state
     ctor_forwards_params(ctx, 'R16.7', ['queues'], floor=1)
@@ -301,6 +314,9 @@ def run(ctx):
 
 _Q = 'billiard/queues.py'
 MUTANTS = [
+    ('join-tests-before-taking-the-condition', _Q, "        with self._cond:\n            if not self._unfinished_tasks._semlock._is_zero():\n                self._cond.wait()\n",
+     "        if self._unfinished_tasks._semlock._is_zero():\n            return\n        with self._cond:\n            self._cond.wait()\n", 'R16.4'),
+    ('reader-asks-for-a-fixed-chunk', 'billiard/connection.py', "                chunk = read(handle, remaining)\n", "                chunk = read(handle, min(size, 65536))\n", 'R13.3'),
     ('cancelled-join-inherited-by-children', _Q, "        self._jointhread = None\n        self._joincancelled = False\n", "        self._jointhread = None\n", 'R16.6'),
     ('joinable-queue-drops-maxsize', _Q, "        Queue.__init__(self, maxsize, ctx=ctx)\n", "        Queue.__init__(self, ctx=ctx)\n", 'R16.7'),
     ('joinable-queue-forwards-only-extras', _Q, "        Queue.__init__(self, maxsize, ctx=ctx)\n", "        Queue.__init__(self, *args, **kwargs)\n", 'R16.7'),
